@@ -17,7 +17,10 @@ T(s) == Text(s)
 \* what a template can see: a b c z n, defined-ness of z
 ReadProbe == <<PrintS(Var("a")), T(<<124>>), PrintS(Var("b")), T(<<124>>), PrintS(Var("c")), T(<<124>>),
                PrintS(Var("z")), T(<<124>>), PrintS(Var("n")),
-               If1(Test(Var("z"), "defined", <<>>, FALSE), <<T(<<68>>)>>)>>
+               If1(Test(Var("z"), "defined", <<>>, FALSE), <<T(<<68>>)>>),
+               \* defined-ness is read access too, at whatever depth the variable is owned
+               If1(Test(Var("a"), "defined", <<>>, FALSE), <<T(<<65>>)>>), If1(Test(Var("c"), "defined", <<>>, FALSE), <<T(<<67>>)>>),
+               If1(Test(Var("q"), "defined", <<>>, TRUE), <<T(<<81>>)>>)>>
 
 Behaviours == {"reads", "sets", "loops", "defs", "extends"}
 Included(bh) ==
@@ -70,14 +73,58 @@ Tp(c, withInclude) ==
     @@ ("t1" :> Included(c.bh)) @@ ("t2" :> BaseT2)
 
 \* two-level include: t1 includes t3 with its own `with`, t3 sets and reads
-DeepCases == IF ~Deep THEN {} ELSE
-    {[deep |-> TRUE, w1 |-> w1, w2 |-> w2, o1 |-> o1, o2 |-> o2] : w1 \in Withs, w2 \in Withs, o1 \in BOOLEAN, o2 \in BOOLEAN}
+DeepWiths == IF Deep THEN Withs ELSE {"none", "new"}
+DeepCases == {[deep |-> TRUE, w1 |-> w1, w2 |-> w2, o1 |-> o1, o2 |-> o2] : w1 \in DeepWiths, w2 \in DeepWiths, o1 \in BOOLEAN, o2 \in BOOLEAN}
 DeepTp(d, withInclude) ==
     ("main" :> <<Set("c", LI(3))>> \o
                (IF withInclude THEN <<Include(LS(NT.t1), WithExpr(d.w1), d.w1 # "none", d.o1, FALSE, FALSE)>> ELSE <<>>)
                \o <<T(<<91>>)>> \o ReadProbe \o <<T(<<93>>)>>)
     @@ ("t1" :> <<T(<<40>>), Set("z", LI(4)), Include(LS(NT.t3), WithExpr(d.w2), d.w2 # "none", d.o2, FALSE, FALSE)>> \o ReadProbe \o <<T(<<41>>)>>)
     @@ ("t3" :> <<T(<<60>>), Set("a", LI(0)), Set("b", LI(0))>> \o ReadProbe \o <<T(<<62>>)>>)
+
+\* ---- further scenarios (one run each): relative names, loader failures under ignore missing ----------
+RelI(s) == Inc(LS(s))
+DotB == <<46, 47, 98>>                      \* ./b
+UpSH == <<46, 46, 47, 115, 47, 104>>        \* ../s/h
+UpSM == <<46, 46, 47, 115, 47, 109>>        \* ../s/m
+UpPB == <<46, 46, 47, 112, 47, 98>>         \* ../p/b
+RelLeaves == ("pb" :> <<T(<<80>>), PrintS(Var("a"))>>) @@ ("sb" :> <<T(<<83>>), PrintS(Var("a"))>>)
+Extra ==
+  [ rel1 |-> [entry |-> "pm", fl |-> "",
+              tp |-> ("pm" :> <<RelI(UpSH), T(<<124>>), RelI(DotB), T(<<124>>), RelI(DotB)>>) @@ ("sh" :> <<T(<<72>>)>>) @@ RelLeaves],
+    rel2 |-> [entry |-> "pm", fl |-> "",
+              tp |-> ("pm" :> <<RelI(DotB), T(<<124>>), RelI(UpSH), T(<<124>>), RelI(DotB)>>) @@ ("sh" :> <<T(<<72>>), RelI(DotB), T(<<47>>), RelI(UpPB)>>) @@ RelLeaves],
+    rel3 |-> [entry |-> "pm", fl |-> "",
+              tp |-> ("pm" :> <<For1("d", Arr(<<LS(UpSH), LS(DotB), LS(NT.sb), LS(DotB)>>), <<Inc(Var("d")), T(<<44>>)>>)>>)
+                     @@ ("sh" :> <<T(<<72>>), RelI(DotB)>>) @@ RelLeaves],
+    rel4 |-> [entry |-> "ph", fl |-> "",
+              \* (which directory a relative name inside an overriding block refers to -- the child's or the layout's -- is stated nowhere:
+              \* the child's block uses none)
+              tp |-> ("ph" :> <<Extends(LS(UpSM)), Block("bb", <<T(<<60>>), PrintS(Call("parent", <<>>)), T(<<62>>)>>)>>)
+                     @@ ("sm" :> <<T(<<91>>), RelI(DotB), Block("bb", <<T(<<40>>), RelI(DotB), T(<<41>>)>>), Block("cc", <<RelI(UpPB)>>), T(<<93>>)>>) @@ RelLeaves],
+    rel5 |-> [entry |-> "pm", fl |-> "",
+              tp |-> ("pm" :> <<Include(LS(UpSH), Hash(<<LS(NT.a)>>, <<LI(5)>>), TRUE, TRUE, FALSE, FALSE), T(<<124>>),
+                                Include(LS(<<46, 47, 110, 120>>), Lit(Null), FALSE, FALSE, TRUE, FALSE), T(<<124>>), RelI(DotB)>>)
+                     @@ ("sh" :> <<T(<<72>>), RelI(DotB)>>) @@ RelLeaves],
+    \* a loader that has the template and fails is not "missing"
+    ignfault |-> [entry |-> "main", fl |-> "t1",
+                  tp |-> ("main" :> <<T(<<97>>), Include(LS(NT.t1), Lit(Null), FALSE, FALSE, TRUE, FALSE), T(<<98>>)>>) @@ ("t1" :> <<T(<<99>>)>>)],
+    ignfaultdeep |-> [entry |-> "main", fl |-> "t3",
+                  tp |-> ("main" :> <<T(<<97>>), Include(LS(NT.t1), Lit(Null), FALSE, FALSE, TRUE, FALSE), T(<<98>>)>>)
+                         @@ ("t1" :> <<T(<<99>>), Include(LS(NT.t3), Lit(Null), FALSE, FALSE, TRUE, FALSE)>>) @@ ("t3" :> <<T(<<100>>)>>)],
+    ignmissing |-> [entry |-> "main", fl |-> "",
+                  tp |-> ("main" :> <<T(<<97>>), Include(LS(NT.nx), Lit(Null), FALSE, FALSE, TRUE, FALSE), T(<<98>>)>>)] ]
+LoaderLayouts == {"direct", "only", "front", "back", "chain"}
+ExtraCases == {[extra |-> n, ly |-> ly] : n \in DOMAIN Extra, ly \in LoaderLayouts}
+ExtraOK(c) == (Extra[c.extra].fl # "" => c.ly # "direct")
+ExtraRef(c) == Render(MkWF(Extra[c.extra].tp, {}, {}, NoFault, Extra[c.extra].fl), Extra[c.extra].entry, ("a" :> VI(1)))
+CaseOfExtra(c) ==
+    LET r == ExtraRef(c) IN
+    [prop |-> "C11", key |-> ToJson(c), tags |-> {"extra:" \o c.extra, "loaders:" \o c.ly}, entry |-> Extra[c.extra].entry, ctx |-> ("a" :> VI(1)),
+     cfg |-> [loader |-> c.ly # "direct", faultload |-> Extra[c.extra].fl, frontloader |-> c.ly = "front", backloader |-> c.ly = "back",
+              chainloader |-> c.ly = "chain"],
+     runs |-> <<[label |-> c.extra, tp |-> Sources(Extra[c.extra].tp, LMin), xcalls |-> [id \in {} |-> 0]]>>,
+     expect |-> [ok |-> r.ok, out |-> r.out, err |-> r.err, calls |-> [id \in {} |-> 0]]]
 
 Ctx == ("a" :> VI(1)) @@ ("b" :> VI(2)) @@ ("nm" :> VS(NT.t1)) @@ ("nv" :> VS(NT.nx))
 World(tp) == MkW(tp, {}, {}, NoFault)
@@ -107,16 +154,17 @@ CaseOfErr(c) ==
      expect |-> [ok |-> r1.ok, out |-> r1.out, err |-> r1.err, calls |-> [id \in {} |-> 0]]]
 
 All == {c \in Cases : Relevant(c)} \cup DeepCases
-Init == cs \in {c \in All : Ref(c, TRUE).err # "frag" /\ Ref(c, FALSE).ok}
+IsExtra(c) == "extra" \in DOMAIN c
+Init == cs \in {c \in All : Ref(c, TRUE).err # "frag" /\ Ref(c, FALSE).ok} \cup {c \in ExtraCases : ExtraOK(c) /\ ExtraRef(c).err # "frag"}
 Next == UNCHANGED cs
 Spec == Init /\ [][Next]_cs
 
-Emit == PrintT(ToJson(IF Ref(cs, TRUE).ok THEN CaseOf(cs) ELSE CaseOfErr(cs)))
+Emit == PrintT(ToJson(IF IsExtra(cs) THEN CaseOfExtra(cs) ELSE IF Ref(cs, TRUE).ok THEN CaseOf(cs) ELSE CaseOfErr(cs)))
 
 \* model-level non-interference: what the includer prints after the include does not
 \* depend on the include (the suffix of the output from the last "[" is equal)
 RECURSIVE LastIndexOf(_, _, _)
 LastIndexOf(s, ch, i) == IF i = 0 THEN 0 ELSE IF s[i] = ch THEN i ELSE LastIndexOf(s, ch, i - 1)
 Suffix(s) == LET i == LastIndexOf(s, 91, Len(s)) IN SubSeq(s, i, Len(s))
-NonInterference == Ref(cs, TRUE).ok => Suffix(Ref(cs, TRUE).out) = Suffix(Ref(cs, FALSE).out)
+NonInterference == ~IsExtra(cs) /\ Ref(cs, TRUE).ok => Suffix(Ref(cs, TRUE).out) = Suffix(Ref(cs, FALSE).out)
 =============================================================================
